@@ -47,11 +47,20 @@ def build_corpus(tier, seed):
     return cases
 
 
+IN_SCOPE = {"literal", "word_value", "word_value_with_longer_sibling"}
+
+
+def scope(d, kind):
+    """C12 speaks about values typed in full (as earlier words) and partially typed values (at the cursor);
+    words that leave the within-word expression unfinished or are foreign belong to C01"""
+    return all(c in IN_SCOPE for c in d["classes"])
+
+
 def run(tier):
     core.build()
     seed = core.seed()
     cases = build_corpus(tier, seed)
-    return c01.run_flow("C12", cases, (24 if tier == "quick" else 60, 8), ("rc", "reply"), tier, seed, depth=2, rich=True,
+    return c01.run_flow("C12", cases, (24 if tier == "quick" else 60, 8), ("rc", "reply"), tier, seed, depth=2, rich=True, scope=scope,
                         rule="within-word alternation over subsets of the prefix-chain universe {a,ab,abc,abcd,b,bc,abd} (all 127 in thorough, all of size <= 2 plus "
                              "a seeded sample in quick) x prefix literal {--opt=, -o}, followed by a further word; every value and every prefix of it as the typed "
                              "word, every value as an earlier word; thorough adds random value sets over {x,y,z};")
